@@ -73,7 +73,16 @@ def graph_strategy(tier):
             prog.append(['gtxn', [draw(rec)]])
         ncut_start = 1 + len(prog)          # model index of the first cut transaction (0 = root creation)
         nc = draw(st.integers(1, 3))
-        if draw(st.booleans()):
+        same = None
+        shape = draw(st.integers(0, 4))
+        if shape == 0:
+            # several revisions of ONE object (rewritten or cut each time): undone together they leave several records
+            # of that object in one transaction
+            same = draw(st.integers(0, nb))
+            nc = draw(st.integers(2, 3))
+            for _ in range(nc):
+                prog.append(['gtxn', [draw(st.sampled_from([['updp', same], ['updp', same], ['unlinkp', same, 0]]))]])
+        elif shape <= 2:
             # detach a subtree at several consecutive levels, bottom-up or top-down
             d0 = draw(st.integers(0, nb))
             levels = [max(0, d0 - i) for i in range(nc)]
@@ -89,11 +98,17 @@ def graph_strategy(tier):
         after_cuts = len(prog)              # number of transactions after the root's
         undos = draw(st.one_of(st.permutations(list(range(nc))),
                                st.lists(st.integers(0, nc - 1), min_size=1, max_size=3, unique=True)))
-        if draw(st.booleans()):
+        if same is not None and draw(st.integers(0, 3)):
+            undos = list(range(nc - 1, -1, -1))[:draw(st.integers(2, nc))]      # newest first: every one is accepted
+        if draw(st.booleans()) or same is not None:
             prog.append(['gundo', [['abs', ncut_start + u] for u in undos]])
         else:
             for u in undos:
                 prog.append(['gundo', [['abs', ncut_start + u]]])
+        if same is not None and draw(st.booleans()):
+            # ... and a later change of that object is undone: a record pointing back into the multi-undo transaction
+            prog.append(['gtxn', [['updp', same]]])
+            prog.append(['gundo', [0]])
         # undo of the undo of the undo ...: back-pointer chains of length >= 2 ending in the record with the pickle
         chain = draw(st.sampled_from([0, 0, 1, 2, 3]))
         for _ in range(chain):
@@ -102,8 +117,45 @@ def graph_strategy(tier):
         prog.append(['pack', ['abs', max(0, packk)], draw(st.sampled_from([0, 1, 2, 3, 4, 5]))])
         prog.extend(draw(st.lists(step, max_size=4)))
         return prog
+
+    @st.composite
+    def phased_revival(draw):
+        """an object is created referring to an older object, the creation is undone, the older object loses its other
+        referrers (or not), and after the pack time the creation is brought back by undoing the undo: the revived
+        revision is a back-pointer to a record before the pack time of an object that does not exist at the pack time"""
+        prog = []
+        nb = draw(st.integers(1, 4))
+        parent_of = {}
+        for i in range(nb):
+            parent = i if draw(st.booleans()) else draw(st.integers(0, i))
+            parent_of[i + 1] = parent
+            prog.append(['gtxn', [['gnewp', parent, 'oc']]])
+        tgt = draw(st.integers(1, nb))
+        holder = draw(st.integers(0, nb))
+        recs = [['gnewrefp', holder, tgt, draw(st.sampled_from(['oc', 'oc', 'o']))]]
+        if draw(st.booleans()):
+            recs.append(draw(rec))
+        prog.append(['gtxn', recs])
+        k_create = len(prog)                  # model index of the creating transaction (0 = root's)
+        prog.append(['gundo', [['abs', k_create]]])
+        k_undo = len(prog)
+        for _ in range(draw(st.integers(0, 2))):
+            # the older object (or one above it) is cut loose
+            v = tgt if draw(st.integers(0, 3)) else draw(st.integers(1, nb))
+            prog.append(['gtxn', [['unlinkp', parent_of[v], draw(st.sampled_from([0, 0, 0, 1, 2]))]]])
+        for _ in range(draw(st.integers(0, 1))):
+            prog.append(['gtxn', [draw(rec)]])
+        k_t = len(prog)
+        prog.append(['gundo', [['abs', k_undo]]])
+        for _ in range(draw(st.sampled_from([0, 0, 0, 1, 2]))):
+            prog.append(['gundo', [0]])
+        for _ in range(draw(st.integers(0, 1))):
+            prog.append(['gtxn', [draw(rec)]])
+        prog.append(['pack', ['abs', max(0, k_t + draw(st.sampled_from([0, 0, 0, 0, -1, 1])))], draw(st.sampled_from([0, 1, 2, 3, 4, 5]))])
+        prog.extend(draw(st.lists(step, max_size=4)))
+        return prog
     return st.fixed_dictionaries({'kind': st.sampled_from(KINDS),
-                                  'prog': st.one_of(free, phased(), phased())})
+                                  'prog': st.one_of(free, phased(), phased(), phased_revival())})
 
 
 def blob_strategy(tier):
@@ -240,7 +292,18 @@ class GraphRunner(programs.StorageRunner):
 
         for r in recs:
             k = r[0]
-            if k in ('gnewp', 'unlinkp'):
+            if k == 'gnewrefp':
+                # a new object below an existing one, itself referring to an (older) existing object
+                parent, tgt = self.oids[r[1] % len(self.oids)], self.oids[r[2] % len(self.oids)]
+                if parent not in reachset or tgt not in state:
+                    continue
+                self.next_oid += 1
+                oid = p64(self.next_oid)
+                new_oids.append(oid)
+                new_refs[oid] = [records.Ref(tgt, r[3])]
+                new_refs[parent] = refs(parent) + [records.Ref(oid, r[3])]
+                continue
+            if k in ('gnewp', 'unlinkp', 'updp'):
                 # absolute addressing by creation order (phased generator); unreachable -> no-op
                 target = self.oids[r[1] % len(self.oids)]
                 if target not in reachset:
@@ -318,6 +381,7 @@ class GraphRunner(programs.StorageRunner):
                 targets.append(tg)
         if not targets:
             return None
+        self.last_touched = {oid for tg in targets for oid, _ in tg.recs}
         t = TransactionMetaData(b'', b'undo', b'')
         s.tpc_begin(t)
         pending = {}
@@ -370,6 +434,18 @@ def protected_region(model, stop):
     for stt in states:
         prot |= gr(None, stt)
     return prot
+
+
+def undo_only_outside_protected(A, B, stop):
+    """the transactions just asked to be undone wrote only objects that are not reachable from the root in any state
+    from the pack time on.  The statement protects objects reachable from the root; for an object outside that region
+    pack may drop the record that says it did not exist at the pack time (an external-GC deletion), after which the
+    record before it counts as its previous revision and an undo of its revival decides differently - without any
+    effect on a protected object"""
+    if stop is None:
+        return False
+    touched = getattr(A, 'last_touched', set()) | getattr(B, 'last_touched', set())
+    return bool(touched) and not (touched & (protected_region(A.model, stop) | protected_region(B.model, stop)))
 
 
 def compare_protected(a, b, model, stop, gc, out, where, caps):
@@ -518,6 +594,9 @@ def _execute(case, rand):
                 rb = B.gtxn(op[1]) if k == 'gtxn' else B.gundo(op[1])
                 if clock.CLOCK.now != t1 or A.model.tids() != B.model.tids():
                     if k == 'gundo' and ra != rb:
+                        if undo_only_outside_protected(A, B, stop):
+                            out.label('undo-outcome-differs-for-never-reachable-object')
+                            break
                         out.fail((PROPERTY, 'undo-after-pack', 'outcome-differs'),
                                  'undo %r: packed storage %r, unpacked twin %r' % (op[1], ra and ra[0], rb and rb[0]))
                         break
@@ -527,6 +606,9 @@ def _execute(case, rand):
                     break
                 if k == 'gundo' and ra is not None:
                     if ra != rb:
+                        if undo_only_outside_protected(A, B, stop):
+                            out.label('undo-outcome-differs-for-never-reachable-object')
+                            break
                         out.fail((PROPERTY, 'undo-after-pack', 'outcome-differs'),
                                  'undo %r: packed storage %r, unpacked twin %r' % (op[1], ra, rb))
                         break
